@@ -132,15 +132,19 @@ fn drive(src: &str, lib: Option<&str>, reqs: &[(String, Vec<i64>)], cmds: &[Stri
                     let mut eval = Evaluator::new(&module);
                     hook.add_dap_hooks(&mut eval);
                     eval.set_loader(&loader);
-                    match eval.eval_module(ast, globals) {
+                    let r = match eval.eval_module(ast, globals) {
                         Ok(_) => (String::new(), 0, String::new()),
                         Err(e) => run::err_of(&e),
-                    }
+                    };
+                    drop(eval);
+                    let mut names: Vec<String> = module.names().map(|n| n.as_str().to_owned()).collect();
+                    names.sort();
+                    (r.0, r.1, r.2, names)
                 })
             }));
             let out = run::OUT.with(|o| std::mem::take(&mut *o.borrow_mut()));
             let j = match r {
-                Ok((kind, line, msg)) => json!({"out": out, "kind": kind, "line": line, "msg": msg}),
+                Ok((kind, line, msg, names)) => json!({"out": out, "kind": kind, "line": line, "msg": msg, "names": names}),
                 Err(p) => json!({"out": out, "kind": "panic", "line": 0, "msg": p}),
             };
             let _ = done_tx.send(j);
